@@ -436,6 +436,23 @@ func (e *Exec) execLoop(h *ssa.BasicBlock, loop map[*ssa.BasicBlock]bool, pre *S
 			}
 			continue
 		}
+		if strings.HasPrefix(k, "family:") {
+			// a Lock inside the loop havocs a whole family of heaps (also members not materialised yet)
+			fam := strings.TrimPrefix(k, "family:")
+			for name := range head.heaps {
+				if strings.HasPrefix(name, fam) {
+					f := TS.Fresh("loopheap_"+name, e.heapSorts[name])
+					freshSyms[f] = true
+					head.heaps[name] = f
+				}
+			}
+			epochCounter++
+			if head.prefEpoch == nil {
+				head.prefEpoch = map[string]int{}
+			}
+			head.prefEpoch[fam] = epochCounter
+			continue
+		}
 		f := TS.Fresh("loopheap_"+k, e.heapSorts[k])
 		freshSyms[f] = true
 		full[k] = f
